@@ -6,7 +6,7 @@
    code is decided by the multi-process differential (DESIGN.md). *)
 From Coq Require Import List NArith Bool Permutation.
 From Verif Require Import Base.SetList Base.Terms Paths.Path Shapes.AST Shapes.Leaf Shapes.Eval Shapes.OrderProofs Shapes.MemberOrder
-  Closure.Worklist Closure.WorklistProofs Gen.T4.
+  Closure.Worklist Closure.WorklistProofs Gen.T4 Closure.ListCheck Closure.ListCheckProofs Gen.T5.
 Import ListNotations.
 
 Theorem C09_shape_order : forall trig W o sg g E explicit shapes shapes' c rs, abort o = false ->
@@ -70,3 +70,11 @@ Example C09_closure_nonvacuous :
   /\ run_on transitive_subjects_prog [(IRI 5, IRI 9, IRI 4); (IRI 4, IRI 9, IRI 1); (IRI 2, IRI 9, IRI 4); (IRI 2, IRI 9, IRI 1)] (IRI 9) (IRI 1)
     = Some [IRI 1; IRI 4; IRI 2; IRI 5].
 Proof. split; vm_compute; reflexivity. Qed.
+
+(* Tie A, insertion order: whether the shapes graph's lists are accepted depends on the rest map as a function, not on
+   the order in which the store lists the rdf:rest triples (a node with two different rdf:rest values is rejected before,
+   see C16_list_check_wiring, so the map is a function of the triple set) *)
+Theorem C09_list_check_order_free : forall m m', (forall x, rest_of m x = rest_of m' x) ->
+  (check check_rdf_lists_prog m = Accept <-> check check_rdf_lists_prog m' = Accept).
+Proof. exact check_order_free. Qed.
+Print Assumptions C09_list_check_order_free.
